@@ -22,7 +22,7 @@ RULE = ("random host programs over if_eq/ne/lt/ge/ez/nz (context and callback fo
         "conditional body or loop iteration and >= 2 subroutines or >= 12 operations; distinct = distinct (program, script).")
 ASSUMPTIONS = [
     "R-HOST gives the staged meaning of SDK host code (handles created once, operations per control-flow visit, arrays of a flush segment exist from its start)",
-    "loop ranges satisfy start <= stop, step > 0, step | stop - start (the emitted loop tests equality)",
+    "counted loops have integer bounds and a positive step; the index runs over range(start, stop, step), also when the step does not divide the range or the range is empty",
     "qubits allocated inside a body are measured destructively in that body; registers from new_register / register measurements are used only inside their flush segment (known finding regfuture-across-flush otherwise)",
     "host handles are read after every flush (M registers are recycled per flush); a stale read that equals the handle's first-read value is the known finding future-cache-after-mutation",
 ]
